@@ -495,9 +495,61 @@ pub struct Script {
     /// signal that arrives while that command runs must still be handled.
     #[serde(default)]
     pub ending: u8,
+    /// Some(v): a fixed scenario in which a foreground child sends two trapped
+    /// signals to the shell and the action that runs first diverts (0 break,
+    /// 1 continue, 2 return from a function, 3 no divert but the action of the
+    /// other signal is reset by the first): every action still runs exactly
+    /// once (or, for 3, the reset one not at all). No simulator-sent signals.
+    #[serde(default)]
+    pub divert: Option<u8>,
+}
+
+fn divert_script(v: u8) -> Vec<String> {
+    let mut l: Vec<String> = Vec::new();
+    match v {
+        0 | 1 => {
+            // a signal that arrives while another action runs is handled when
+            // that action has finished, before the next command
+            l.push("trap 'echo t1; ( kill -s USR1 $$ ); echo t1done' TERM".into());
+            l.push("trap 'echo u1' USR1".into());
+            l.push("trap 'echo u2' USR2".into());
+            if v == 0 {
+                l.push("if ( kill -s USR2 $$; kill -s TERM $$ ); then echo then; fi".into());
+            } else {
+                l.push("f() { ( kill -s USR2 $$; kill -s TERM $$ ); echo then; }; f".into());
+            }
+        }
+        2 => {
+            l.push("trap 'echo u1; return 3' USR1".into());
+            l.push("trap 'echo u2' USR2".into());
+            l.push("f() { ( kill -s USR2 $$; kill -s USR1 $$ ); echo in-f; }".into());
+            l.push("f; echo \"?=$?\"".into());
+        }
+        _ => {
+            l.push("trap 'echo u1; trap - USR2' USR1".into());
+            l.push("trap 'echo u2' USR2".into());
+            l.push("( kill -s USR2 $$; kill -s USR1 $$ )".into());
+            l.push("echo mid".into());
+        }
+    }
+    l.push("echo end".into());
+    l
 }
 
 fn gen_script(rng: &mut Rng, tier: Tier) -> Script {
+    if rng.below(12) == 0 {
+        let v = rng.below(4) as u8;
+        return Script {
+            lines: divert_script(v),
+            trap1: true,
+            trap2: 1,
+            spaced: true,
+            rate: 0,
+            max_signals: 0,
+            ending: 0,
+            divert: Some(v),
+        };
+    }
     let trap1 = true;
     let trap2 = rng.below(4) as u8;
     let ending = *rng.pick(&[0u8, 0, 0, 1, 2]);
@@ -571,6 +623,7 @@ fn gen_script(rng: &mut Rng, tier: Tier) -> Script {
         rate: *rng.pick(&[30u32, 80, 200, 500]),
         max_signals: rng.range(1, 4),
         ending,
+        divert: None,
     }
 }
 
@@ -595,6 +648,31 @@ fn spec_of(s: &Script) -> ScriptSpec {
 fn check_script(s: &Script, base: &Observed, obs: &Observed) -> Option<Viol> {
     if let Some(v) = check_liveness(obs) {
         return Some(v);
+    }
+    if let Some(v) = s.divert {
+        let count = |w: &str| obs.stdout.lines().filter(|l| *l == w).count();
+        let (u1, u2) = (count("u1"), count("u2"));
+        // (3: the trap of USR2 is reset by the action of USR1 while USR2 is pending)
+        let want_u2 = if v == 3 { 0 } else { 1 };
+        // (0, 1: everything pending has run before the next command `echo then`)
+        let order_ok = v > 1 || {
+            let pos = |w: &str| obs.stdout.lines().position(|l| l == w);
+            match (pos("t1done"), pos("u1"), pos("u2"), pos("then")) {
+                (Some(a), Some(b), Some(c), Some(d)) => a < b && b < d && c < d,
+                _ => false,
+            }
+        };
+        if u1 != 1 || u2 != want_u2 || !order_ok || !obs.stdout.ends_with("end\n") || obs.status != "exited:0" {
+            return Some((
+                if u2 < want_u2 { "lost" } else { "divert" }.into(),
+                "divert".into(),
+                format!(
+                    "two trapped signals pending at one command boundary, the first action diverts: the USR1 action ran {u1} times and the USR2 action {u2} times (expected 1 and {want_u2}); stdout {:?} status {} stderr {:?}",
+                    obs.stdout, obs.status, obs.stderr
+                ),
+            ));
+        }
+        return None;
     }
     if obs.stdout != base.stdout || obs.status != base.status || obs.stderr != base.stderr {
         return Some((
@@ -844,6 +922,8 @@ impl Prop for C11 {
                 }
                 out
             }
+            // (a fixed scenario: removing a line changes its meaning)
+            Ok(Stored::Script(s)) if s.divert.is_some() => Vec::new(),
             Ok(Stored::Script(s)) => {
                 let mut out = Vec::new();
                 for i in 0..s.lines.len() {
